@@ -31,6 +31,8 @@ structure FInfo where
   /-- schema directives on the field definition, source order -/
   dirs : List String := []
   deferred : Option String := none
+  /-- name of the definition the first collected occurrence was validated against -/
+  objDef : String := ""
 deriving Repr, Inhabited
 
 inductive Shape where
@@ -54,27 +56,45 @@ def Shape.isIface : Shape → Bool
 
 /-! ## Stage A -/
 
+/-- how the fields of a selection set are collected for a concrete object type -/
+abbrev Collector := TypeDef → List Sel → Option (List CF)
+
+/-- gqlgen: `graphql.CollectFields(ec.OperationContext, sel, <type>Implementors)` -/
+def implCollector (s : Schema) (frags : List Frag) (vars : Vars) : Collector := fun ty sels =>
+  (Impl.collect s frags vars ty.implementors 1000000 sels [] []).map (·.1)
+
+/-- `DoesFragmentTypeApply(objectType, fragmentType)` from the schema itself -/
+def Spec.applies (s : Schema) (ty : TypeDef) (tc : String) : Bool :=
+  tc == ty.name || ty.interfaces.contains tc ||
+    (match s.type? tc with
+      | some t => t.kind == Kind.union && t.possible.contains ty.name
+      | none => false)
+
+/-- GraphQL §6.3.2: occurrences in document order, grouped by response key -/
+def specCollector (s : Schema) (frags : List Frag) (vars : Vars) : Collector := fun ty sels =>
+  (Spec.occurrences frags vars (Spec.applies s ty) 1000000 sels none []).map fun r => Spec.group r.1 []
+
 mutual
-def planFields (s : Schema) (frags : List Frag) (vars : Vars) :
+def planFields (s : Schema) (col : Collector) :
     Nat → TypeDef → List Sel → Option (List (FInfo × Shape))
   | 0, _, _ => none
   | fuel + 1, ty, sels =>
-    match Impl.collect s frags vars ty.implementors 1000000 sels [] [] with
+    match col ty sels with
     | none => none
-    | some (cfs, _) =>
+    | some cfs =>
       cfs.mapM fun cf =>
         if cf.name == "__typename" then
-          some ({ alias := cf.alias, name := cf.name, deferred := cf.deferred }, Shape.leaf true)
+          some ({ alias := cf.alias, name := cf.name, deferred := cf.deferred, objDef := cf.objDef }, Shape.leaf true)
         else match ty.field? cf.name with
           | none => none      -- "unknown field": the validator has already run
           | some fd =>
-            (planType s frags vars fuel fd.type cf.sels).map fun sh =>
-              ({ alias := cf.alias, name := cf.name, dirs := fd.dirs, deferred := cf.deferred }, sh)
+            (planType s col fuel fd.type cf.sels).map fun sh =>
+              ({ alias := cf.alias, name := cf.name, dirs := fd.dirs, deferred := cf.deferred, objDef := cf.objDef }, sh)
 
-def planType (s : Schema) (frags : List Frag) (vars : Vars) : Nat → TRef → List Sel → Option Shape
+def planType (s : Schema) (col : Collector) : Nat → TRef → List Sel → Option Shape
   | 0, _, _ => none
   | fuel + 1, .list e nn, sels =>
-    (planType s frags vars fuel e sels).map fun sh =>
+    (planType s col fuel e sels).map fun sh =>
       Shape.list nn (match s.type? e.base with
         | some t => t.kind != Kind.scalar || (match e with | .list _ _ => true | _ => false)
         | none => true) sh
@@ -84,13 +104,44 @@ def planType (s : Schema) (frags : List Frag) (vars : Vars) : Nat → TRef → L
     | some t =>
       match t.kind with
       | .scalar | .enum | .input => some (Shape.leaf nn)
-      | .object => (planFields s frags vars fuel t sels).map fun fs => Shape.obj nn false [(n, fs)]
+      | .object => (planFields s col fuel t sels).map fun fs => Shape.obj nn false [(n, fs)]
       | .interface | .union =>
         (t.possible.mapM fun c =>
           match s.type? c with
           | none => none
-          | some ct => (planFields s frags vars fuel ct sels).map fun fs => (c, fs)).map
+          | some ct => (planFields s col fuel ct sels).map fun fs => (c, fs)).map
           fun cases => Shape.obj nn true cases
+end
+
+/-! distinct response keys in every collected field list (decidable form of `Shape.WF`) -/
+mutual
+def Shape.wfb : Shape → Bool
+  | .leaf _ => true
+  | .obj _ _ cases => casesWfb cases
+  | .list _ elemCtx e => e.wfb && (elemCtx || match e with | .leaf _ => true | _ => false)
+def casesWfb : List (String × List (FInfo × Shape)) → Bool
+  | [] => true
+  | (_, fs) :: rest => fieldsWfb fs && casesWfb rest
+def fieldsWfb : List (FInfo × Shape) → Bool
+  | [] => true
+  | (fi, sh) :: rest => rest.all (fun g => g.1.alias != fi.alias) && sh.wfb && fieldsWfb rest
+end
+
+/-! the shape of known finding F01: every pair of collected fields that share a response key was
+    selected under *unrelated* type conditions (neither definition implements the other) -/
+mutual
+def Shape.dupsUnrelated (s : Schema) : Shape → Bool
+  | .leaf _ => true
+  | .obj _ _ cases => casesDupsUnrelated s cases
+  | .list _ _ e => e.dupsUnrelated s
+def casesDupsUnrelated (s : Schema) : List (String × List (FInfo × Shape)) → Bool
+  | [] => true
+  | (_, fs) :: rest => fieldsDupsUnrelated s fs && casesDupsUnrelated s rest
+def fieldsDupsUnrelated (s : Schema) : List (FInfo × Shape) → Bool
+  | [] => true
+  | (fi, sh) :: rest =>
+    rest.all (fun g => g.1.alias != fi.alias || !relatedDefs s g.1.objDef fi.objDef) &&
+      sh.dupsUnrelated s && fieldsDupsUnrelated s rest
 end
 
 /-! ## Stage B -/
@@ -161,6 +212,13 @@ def St.invoked (st : St) (p : Path) (hook : String) : St :=
 def mustNotBeNull : String := "must not be null"
 def elementIsNull : String := "the requested element is null which the schema does not allow"
 
+def illTypedScalarElem : String := "model: nil element in a list of non-null scalars"
+
+/-- effects compose by concatenation -/
+def St.append (a b : St) : St :=
+  { errs := a.errs ++ b.errs, invs := a.invs ++ b.invs, recovers := a.recovers + b.recovers,
+    unlogged := a.unlogged ++ b.unlogged }
+
 def quoteTypename (ty : String) : String := "\"" ++ ty ++ "\""
 
 namespace Impl
@@ -229,7 +287,7 @@ def completeFields (o : Oracle) (ty : String) :
   | (fi, sh) :: rest, p, st =>
     let r :=
       if fi.name == "__typename" then (Out.leaf (quoteTypename ty), st)
-      else completeField o fi sh (p ++ [fi.alias]) st
+      else completeField o fi sh (p ++ [.key fi.alias]) st
     let rs := completeFields o ty rest p r.2
     ((fi.alias, r.1) :: rs.1, (if sh.nn && r.1.isNull then 1 else 0) + rs.2.1, rs.2.2)
 
@@ -259,7 +317,11 @@ def completeElems (o : Oracle) (elem : Shape) (elemCtx : Bool) :
     List V → Path → Nat → St → List Out × St
   | [], _, _, st => ([], st)
   | v :: rest, p, i, st =>
-    let r := completeValue o elem v (if elemCtx then p ++ [toString i] else p) st
+    let r :=
+      if !elemCtx && elem.nn && v.isNull then
+        -- excluded by the Go types: a list of non-null scalars has non-nilable elements
+        (Out.null, st.addErr p illTypedScalarElem)
+      else completeValue o elem v (if elemCtx then p ++ [.idx i] else p) st
     let rs := completeElems o elem elemCtx rest p (i + 1) r.2
     (r.1 :: rs.1, rs.2)
 end
